@@ -91,6 +91,31 @@ func (r *repo) funcDecl(dir, recv, name string) *ast.FuncDecl {
 	return nil
 }
 
+// funcDeclOpt is funcDecl without the fatal error (nil when the function is not there).
+func (r *repo) funcDeclOpt(dir, recv, name string) *ast.FuncDecl {
+	for _, f := range r.pkgs[dir] {
+		for _, d := range f.Decls {
+			fd, ok := d.(*ast.FuncDecl)
+			if !ok || fd.Name.Name != name {
+				continue
+			}
+			if recv == "" && fd.Recv == nil {
+				return fd
+			}
+			if recv != "" && fd.Recv != nil && len(fd.Recv.List) == 1 {
+				t := fd.Recv.List[0].Type
+				if s, ok := t.(*ast.StarExpr); ok {
+					t = s.X
+				}
+				if id, ok := t.(*ast.Ident); ok && id.Name == recv {
+					return fd
+				}
+			}
+		}
+	}
+	return nil
+}
+
 func (r *repo) src(n ast.Node) string {
 	var sb strings.Builder
 	printer.Fprint(&sb, r.fset, n)
@@ -202,6 +227,7 @@ func main() {
 	genPlacers(r, o)
 	genGuid(r, o)
 	genDevModes(r, o)
+	genModelledFuncs(r, o)
 	o.sb.WriteString("end Rio.Generated\n")
 	must(os.MkdirAll(*outDir, 0755))
 	must(os.WriteFile(filepath.Join(*outDir, "Facts.lean"), []byte(o.sb.String()), 0644))
